@@ -16,6 +16,7 @@
   exceptions.
 -/
 import OpmVerif.Proofs.Serial
+import OpmVerif.Proofs.SerialGraph
 import OpmVerif.Proofs.SerialCoverage
 
 namespace OpmVerif.Props.C11
@@ -123,13 +124,11 @@ def exceptions : List Exc := [
   ("Opm::ScheduleStatic", "oilVap", "construction-time input: read only by Schedule::create_first, which copies it into ScheduleState::oilvap (serialized)")
 ]
 
-/-- Data members that are still NOT serialized and are read after construction, i.e. open
-candidates (no deck-level reproduction yet; see design.d/C11.md).  The six members found by this
-check that a public query demonstrably lost (F7–F12) were fixed in /repo and are serialized now. -/
-def knownUnserialized : List Exc := [
-  ("Opm::ScheduleStatic", "slave_mode", "candidate: read by the GRUPMAST/SLAVES/GRUPSLAV handlers (handlerContext.static_schedule().slave_mode) whenever such a keyword is applied after unpack, e.g. from an ACTIONX in a reservoir-coupling slave"),
-  ("Opm::EclipseState", "m_restart_network_pressures", "candidate: filled by loadRestartNetworkPressures() in restarted network runs, read by the public getRestartNetworkPressures()")
-]
+/-- Data members that are still NOT serialized and are read after construction (open candidates).
+Empty: the eight members found by this check that a public query demonstrably lost (F7–F14, the last
+two `ScheduleStatic::slave_mode` and `EclipseState::m_restart_network_pressures`) were fixed in /repo
+and are serialized now; their property-mode probes are armed (lib/props/C11.py). -/
+def knownUnserialized : List Exc := []
 
 /-- Serialized members that `operator==` (including the member functions it calls) does not
 mention on the unchanged tree.  `operator==` is weaker than the serialized state there, so
@@ -184,6 +183,9 @@ def requiredClasses : List String := [
     throw (IO.userError s!"C11 eq_covers_serialized: serialized member(s) not compared by operator==: {showPairs e}")
   if !(badKeys classes).isEmpty then
     throw (IO.userError s!"C11: translator/class-key mismatch for {badKeys classes}")
+  let up := unmodelledPtr classes
+  if !up.isEmpty then
+    throw (IO.userError s!"C11 pointer_members_modelled: serialized member(s) with a shared_ptr under an unmodelled combinator or a raw pointer: {showPairs up}")
   let s := staleExceptions (exceptions ++ knownUnserialized) classes ++ staleEqExceptions eqExceptions classes
   if !s.isEmpty then
     throw (IO.userError s!"C11 exceptions_tight: stale exception(s): {showPairs s}")
@@ -202,10 +204,81 @@ theorem exceptions_tight :
     staleExceptions (exceptions ++ knownUnserialized) classes = [] ∧ staleEqExceptions eqExceptions classes = [] := by
   decide +kernel
 
+/-- Every serialized member that holds a `shared_ptr` holds it under combinators of the pointer layer
+(`GTy`: shared_ptr, vector, optional, unique_ptr, array, value of a (unordered_)map, pair/tuple), and
+no raw pointer is serialized — so the member types of the real classes are instances of the shapes
+`shared_unpack_pack` is about (shape computed by the translator from the compiler's type). -/
+theorem pointer_members_modelled : unmodelledPtr classes = [] := by decide +kernel
+
 /-- All classes named by the property are covered by the table.  (Classes are looked up by the
 numeric `key` first and by name second, so a wrong key can only make a lookup fail — i.e. make
 these theorems fail — never succeed wrongly.) -/
 theorem roots_present : missing requiredClasses classes = [] := by decide +kernel
+
+
+/-! ## shared_ptr and the identity map `m_ptrmap` (all pointer-holding types, all object graphs)
+
+`GTy` adds `shared_ptr` (and optional / unique_ptr / vector / array / (unordered_)map with
+pointer-free key / pair-tuple-class around it) on top of the pointer-free descriptors (`GTy.flat`).  PACK writes the
+ADDRESS of the pointee and the pointee only at its first occurrence; UNPACK makes one new object
+per address (`ρ a` = its address) and lets every later pointer with that address share it.  `H`
+is the heap the object is a view of (`GVal.cons H v`: equal addresses show equal pointees). -/
+
+/-- UNPACK ∘ PACK on object graphs, in the middle of a traversal: whatever the pointer maps hold
+(`S` during PACK, `M` during UNPACK, related by `PInv`), unpacking the packed bytes — followed by
+any other bytes — into a fresh target returns the SAME GRAPH at the new addresses, leaves exactly
+the other bytes, and the two maps are related again afterwards. -/
+theorem shared_unpack_pack (ρ : Nat → Nat) (H : Nat → GVal) (t : GTy) (v tgt : GVal) (S : Seen) (M : PtrMap)
+    (rest : Bytes) (hv : gwt t v = true) (hc : GVal.cons H v) (hf : gfresh t tgt = true) (hi : PInv ρ H S M) :
+    ∃ M', gunpack ρ t tgt M ((gpack t S v).1 ++ rest) = .ok (GVal.rename ρ v, M', rest)
+      ∧ PInv ρ H (gpack t S v).2 M' :=
+  gunpack_gpackW ρ H t v tgt S M rest hv hc hf hi
+
+/-- A whole `pack(x)`, `unpack(y)` with `y` value-initialised: the object graph comes back at the
+new addresses and `position()` equals PACKSIZE. -/
+theorem shared_roundtrip (ρ : Nat → Nat) (H : Nat → GVal) (t : GTy) (v : GVal) (hv : gwt t v = true)
+    (hc : GVal.cons H v) : groundTrip ρ t v = .ok (GVal.rename ρ v, (gsize t [] v).1) :=
+  groundTrip_eq ρ H t v hv hc
+
+/-- PACKSIZE agrees with PACK on object graphs: same number of bytes and the same pointer map
+afterwards, from any state of the map. -/
+theorem shared_packsize_exact (t : GTy) (S : Seen) (v : GVal) (hv : gwt t v = true) :
+    (gpack t S v).1.length = (gsize t S v).1 ∧ (gpack t S v).2 = (gsize t S v).2 :=
+  gpackW_length id t S v hv
+
+/-- Pointer identity is transported exactly: the addresses of the copy are the image of the
+original's under `ρ`, so (new objects being distinct, `ρ` injective) the i-th and j-th pointer
+of the copy are one object iff they were one object — two `shared_ptr` to one object come back
+as one object, two pointers to two equal objects come back as two. -/
+theorem shared_alias_preserved (ρ : Nat → Nat) (hρ : ∀ a b, ρ a = ρ b → a = b) (v : GVal) (i j : Nat) :
+    (GVal.addrs (GVal.rename ρ v))[i]? = (GVal.addrs (GVal.rename ρ v))[j]? ↔
+      (GVal.addrs v)[i]? = (GVal.addrs v)[j]? :=
+  alias_iff ρ hρ v i j
+
+/-- Packing the copy again gives the original buffer with every address field `a` replaced by
+`ρ a` (`gpackW ρ` = PACK writing `ρ a` for `a`), and the pointer map renamed: same layout, same
+meaning. -/
+theorem shared_repack (ρ : Nat → Nat) (hρ : ∀ a b, ρ a = ρ b → a = b) (h0 : ∀ a, ¬ a = 0 → ¬ ρ a = 0)
+    (t : GTy) (S : Seen) (v : GVal) (hv : gwt t v = true) :
+    gpack t (S.map ρ) (GVal.rename ρ v) = ((gpackW ρ t S v).1, (gpackW ρ t S v).2.map ρ) :=
+  gpackW_rename ρ hρ h0 t S v hv
+
+/-- … in particular to a buffer of the same length. -/
+theorem shared_repack_length (ρ : Nat → Nat) (hρ : ∀ a b, ρ a = ρ b → a = b) (h0 : ∀ a, ¬ a = 0 → ¬ ρ a = 0)
+    (t : GTy) (v : GVal) (hv : gwt t v = true) :
+    (gpack t [] (GVal.rename ρ v)).1.length = (gpack t [] v).1.length :=
+  grepack_length ρ hρ h0 t v hv
+
+/-- PACK is injective and prefix-free on object graphs: two graphs (each a view of some heap) with
+the same bytes are the same graph — same contents AND same addresses, hence the same aliasing. -/
+theorem shared_pack_injective (H H' : Nat → GVal) (t : GTy) (v v' : GVal) (r r' : Bytes)
+    (hv : gwt t v = true) (hv' : gwt t v' = true) (hc : GVal.cons H v) (hc' : GVal.cons H' v')
+    (h : (gpack t [] v).1 ++ r = (gpack t [] v').1 ++ r') : v = v' ∧ r = r' :=
+  gpack_inj H H' t v v' r r' hv hv' hc hc' h
+
+/-- A value-initialised object graph is a fresh target. -/
+theorem shared_default_is_fresh (t : GTy) : gfresh t (gdflt t) = true :=
+  gfresh_gdflt t
 
 /-! ## non-vacuity -/
 
@@ -235,6 +308,54 @@ example : unpack (.map true (.int 4) (.pod 1)) (.list [.list [.pod [1, 0, 0, 0],
 example : unpack (.uptr (.pod 1)) (.some (.pod [5])) (pack (.uptr (.pod 1)) .none) = .ok (.some (.pod [5]), []) := by
   decide +kernel
 
+
+/-! non-vacuity of the pointer layer: a Schedule-like graph — a vector of two "report steps", each
+holding a `shared_ptr` to a string and an unordered map name ↦ `shared_ptr<Well>`, a "well" holding
+an int and a `shared_ptr` to a double.  Step 2 shares the string and well W1 with step 1; well W2 of
+step 2 is a different object that shares the inner double with W1. -/
+def sampleGTy : GTy :=
+  .vec (.struct [.sptr (.flat .str), .map false .str (.sptr (.struct [.flat (.int 4), .sptr (.flat (.pod 8))]))])
+
+def sampleInner : GVal := .ptr 4096 (.flat (.pod [0, 0, 0, 0, 0, 0, 240, 63]))
+def sampleW1 : GVal := .ptr 8192 (.list [.flat (.pod [7, 0, 0, 0]), sampleInner])
+def sampleW2 : GVal := .ptr 8256 (.list [.flat (.pod [7, 0, 0, 0]), sampleInner])
+def sampleName : GVal := .ptr 12288 (.flat (.str [83]))
+
+def sampleG : GVal :=
+  .list [.list [sampleName, .list [.list [.flat (.str [87, 49]), sampleW1]]],
+         .list [sampleName, .list [.list [.flat (.str [87, 49]), sampleW1], .list [.flat (.str [87, 50]), sampleW2]]]]
+
+def sampleHeap (a : Nat) : GVal :=
+  if a = 4096 then gpointee sampleInner else if a = 8192 then gpointee sampleW1
+  else if a = 8256 then gpointee sampleW2 else gpointee sampleName
+
+example : gwt sampleGTy sampleG = true := by decide +kernel
+example : GVal.cons sampleHeap sampleG := by
+  simp [sampleG, sampleName, sampleW1, sampleW2, sampleInner, sampleHeap, gpointee, GVal.cons, GVal.consList]
+example : PInv (fun a => a + 1000) sampleHeap [] [] := PInv_nil _ _
+example : gfresh sampleGTy (gdflt sampleGTy) = true := by decide +kernel
+/-- 7 pointers, 4 objects: the second pointer to an object costs 8 bytes -/
+example : GVal.addrs sampleG = [12288, 8192, 4096, 12288, 8192, 4096, 8256, 4096] := by decide +kernel
+example : (gpack sampleGTy [] sampleG).1.length = 135 := by decide +kernel
+example : (gsize sampleGTy [] sampleG) = (135, [8256, 8192, 4096, 12288]) := by decide +kernel
+example : (∀ a b, (fun a => a + 1000) a = (fun a => a + 1000) b → a = b) ∧ (∀ a, ¬ a = 0 → ¬ (fun a => a + 1000) a = 0) := by
+  constructor
+  · intro a b h; simp at h; exact h
+  · intro a _; simp
+
+/-- Freshness of a `shared_ptr` target is necessary: a null on the wire leaves a stale owner in
+place (UNPACK returns before touching the pointer). -/
+example : (match gunpack id (.sptr (.flat (.pod 1))) (.ptr 5 (.flat (.pod [5]))) [] (gpack (.sptr (.flat (.pod 1))) [] .null).1 with
+           | .ok (v, _, _) => GVal.addrs v | .error _ => []) = [5] := by decide +kernel
+
+/-- Consistency of the heap is necessary: of two pointers with one address only the first pointee
+travels, the second comes back showing the first's. -/
+example : (match groundTrip id (.struct [.sptr (.flat (.pod 1)), .sptr (.flat (.pod 1))])
+              (.list [.ptr 5 (.flat (.pod [1])), .ptr 5 (.flat (.pod [2]))]) with
+           | .ok (.list [_, .ptr _ (.flat (.pod b))], _) => b | _ => []) = [1] := by decide +kernel
+
 example : (classes.length > 200) = true := by decide +kernel
+/-- the pointer layer is not idle: `Well`'s thirteen members, `ptr_member`, `map_member`, the AST nodes … -/
+example : ((modelledPtr classes).length ≥ 20) = true := by decide +kernel
 
 end OpmVerif.Props.C11
